@@ -16,7 +16,8 @@ EXPLANATION = (
     "unconditionally on every set and delete; (R6) lockset of the cache: which thread entries touch self.cache and under which common "
     "lock. Not decided: dictionary conformance over operation histories; behaviour against a real Redis."
     ' (R10) no result of get()/get_cached_view() of asl_store / executions / execution_history is compared with None anywhere in the engine or the REST front ends (the Redis-backed store never returns None for an absent key; premise read from RedisDictStore.__getitem__).'
-    ' (R11) a function of the JSON store that rewrites the store file replaces it atomically (writes a sibling and renames), it does not open its only copy for writing; reported on the current tree as D72; (R12) the Redis server version is compared component-wise, not after deleting the dots of the version string; reported as D73.')
+    ' (R11) a function of the JSON store that rewrites the store file replaces it atomically (writes a sibling and renames), it does not open its only copy for writing; reported on the current tree as D72; (R12) the Redis server version is compared component-wise, not after deleting the dots of the version string; reported as D73.'
+    ' (R13) what the store itself publishes on the invalidation channel is something its own invalidation handler tolerates (stop() publishes a string; the handler iterates an array): reported on the current tree as D78.')
 RULE_TEXT = "obligation = one class x method, one key construction, one record creation, one cache access; non-trivial = distinct (rule, site)"
 
 
@@ -280,5 +281,6 @@ def run(chk, ctx):
     round5.store_absence_by_truthiness(chk, ctx, "C20.R10")
     round5.json_store_rewrite_is_atomic(chk, ctx, "C20.R11")
     round5.version_compared_componentwise(chk, ctx)
+    round5.invalidation_handler_takes_what_is_published(chk, ctx)
     chk.assume("redis, pottery (RedisDict/RedisList) and collections.abc.MutableMapping behave as documented")
     chk.assume("Redis client-side caching sends an invalidation only for keys read through the tracked connection, once")
